@@ -52,9 +52,11 @@ func (c13) Gen(seed uint64, tier string) *Scenario {
 		at := r.Intn(len(m.Stmts) + 1)
 		m.Stmts = append(m.Stmts[:at:at], append([]string{bad[r.Intn(len(bad))]}, m.Stmts[at:]...)...)
 	}
-	// functions with process-wide state, called from every worker
+	// functions with process-wide state, called from every worker (their values
+	// are printed but never decide how many rows or workers follow)
 	if r.Bool(0.25) {
-		m.Stmts = append(m.Stmts, r.PickS("SELECT COUNT(*) FROM a WHERE RAND() < 0.5 OR RAND(1, 6) > 7;", "SELECT id, RAND(), RAND(1, 100) FROM a;",
+		m.Stmts = append(m.Stmts, r.PickS("SELECT id, RAND() + RAND(1, 6) FROM a WHERE id > 0;", "SELECT id, RAND(), RAND(1, 100) FROM a;", // only in the select list: a random filter would make the number of workers of the next operator random
+
 			"SELECT id, NOW(), UUID() FROM a WHERE id > 0;", "SELECT id, REGEXP_MATCH(s, '^[a-' || STRING(id % 5) || ']'), DATETIME_FORMAT(NOW(), '%Y') FROM a;"))
 	}
 	renderQuery(sc, m)
